@@ -180,6 +180,12 @@ func typeInv(t types.Type, v *Term, alloc *Term) *Term {
 		l := Sel(v, "len")
 		c := Sel(v, "cap")
 		base := And(Le(IntLit(0), l), Le(l, c), Le(c, BigLit("9223372036854775807")), Implies(Sel(v, "isnil"), Eq(c, IntLit(0))))
+		if _, hi, ok := intRange(u.Elem()); ok && len(hi) <= 3 {
+			// byte-sized elements: every cell of the backing array holds a value of the element type
+			i := BoundVar("ti", SInt)
+			el := Select(Sel(v, "elems"), i)
+			base = And(base, Forall([]*Term{i}, typeInv(u.Elem(), el, nil), []*Term{el}))
+		}
 		if deepInv && isRefType(u.Elem()) && alloc != nil {
 			i := BoundVar("ti", SInt)
 			el := Select(Sel(v, "elems"), i)
@@ -303,6 +309,9 @@ func strAxioms(used map[*Decl]bool) []*Term {
 	out = append(out, Forall([]*Term{x}, Ge(strLen(x), IntLit(0)), []*Term{strLen(x)}))
 	out = append(out, Forall([]*Term{x}, Implies(Eq(strLen(x), IntLit(0)), Eq(x, strLit(""))), []*Term{strLen(x)}))
 	out = append(out, Eq(strLen(strLit("")), IntLit(0)))
+	if d, ok := declTab["sx.at"]; ok && used[d] {
+		out = append(out, Forall([]*Term{x, i}, And(Le(IntLit(0), strAt(x, i)), Le(strAt(x, i), IntLit(255))), []*Term{strAt(x, i)}))
+	}
 	if d, ok := declTab["sx.cat"]; ok && used[d] {
 		cat := App("sx.cat", SStr, x, y)
 		out = append(out, Forall([]*Term{x, y}, Eq(strLen(cat), Add(strLen(x), strLen(y))), []*Term{cat}))
